@@ -10,7 +10,7 @@ import TracklibVerif.Drv.Util
   late     `_` or `num@x,y;x,y|…`: `addFeature(track, num)` calls made after construction
   queries  separated by `|`, fields by `;`:
      info | grid | getcell;x;y | inter;8 scalars | cross;ax;ay;bx;by (fractional cell indices)
-     gcross;x1;y1;x2;y2 (ground coordinates: __cellsCrossSegment(__getCell(a), __getCell(b)) or `none`)
+     gcross;x1;y1;x2;y2 (ground coordinates: __cellsCrossSegment(__getCell(a), __getCell(b)), `none`, or `err:<kind>`)
      cell;i;j | pt;x;y | seg;x1;y1;x2;y2 | trk;x1;y1;x2;y2;…
      ncell;i;j;u | npt;x;y;u | nseg;x1;y1;x2;y2;u | ntrk;u;x1;y1;… | units;d
      nd;x;y;d   (neighborhood(coord, unit=groundDistanceToUnits(d)) → `u=<result>`)
@@ -86,22 +86,29 @@ def query (num? : String → Option α) (shw : α → String) (fl : α → Int) 
     | _, _ => do
       let ns ← fields.mapM num?
       match kind, ns with
-      | "getcell", [x, y] => pure (showOpt (fun (c : α × α) => s!"{shw c.1},{shw c.2}") (getCell ix (x, y)))
+      | "getcell", [x, y] => pure (showRes (showOpt (fun (c : α × α) => s!"{shw c.1},{shw c.2}")) (getCellR ix (x, y)))
       | "inter", [a, b, c, d, e, f, g, h] => pure (showBool (isSegmentIntersects ⟨a, b, c, d⟩ ⟨e, f, g, h⟩))
       | "cross", [ax, ay, bx, b_y] => pure (showCells (cellsCross fl (ax, ay) (bx, b_y)))
       | "gcross", [x1, y1, x2, y2] =>
-        match getCell ix (x1, y1), getCell ix (x2, y2) with
-        | some p1, some p2 => pure (showCells (cellsCross fl p1 p2))
-        | _, _ => pure "none"
+        match getCellR ix (x1, y1) with
+        | .error e => pure (showErr e)
+        | .ok o1 =>
+          match getCellR ix (x2, y2) with
+          | .error e => pure (showErr e)
+          | .ok o2 =>
+            match o1, o2 with
+            | some p1, some p2 => pure (showCells (cellsCross fl p1 p2))
+            | _, _ => pure "none"
       | "pt", [x, y] => pure (showRes showNats (requestPoint fl ix (x, y)))
       | "seg", [x1, y1, x2, y2] => pure (showRes showNats (requestSeg fl ix (x1, y1) (x2, y2)))
       | "trk", _ => do
         let t ← pairs? ns
         pure (showRes showNats (requestTrack fl ix t))
-      | "units", [d] => pure (toString (groundDistanceToUnits fl ix d))
+      | "units", [d] => pure (showRes toString (groundDistanceToUnits fl ix d))
       | "nd", [x, y, d] =>
-        let u := groundDistanceToUnits fl ix d
-        pure s!"{u}={showRes (showOpt showNats) (neighborhoodPoint fl ix (x, y) u)}"
+        match groundDistanceToUnits fl ix d with
+        | .error e => pure (showErr e)
+        | .ok u => pure s!"{u}={showRes (showOpt showNats) (neighborhoodPoint fl ix (x, y) u)}"
       | _, _ => none
 
 def lateAdds (fl : α → Int) : Index α → List (Nat × List (α × α)) → Res (Index α)
